@@ -26,7 +26,7 @@ if [[ $PKG == cache/* || $PKG == cache ]]; then MODDIR=$WT/cache; TESTPKG=./${PK
 SKIP='TestHandleHeaders|TestNeutrinoImportThenP2PSync|TestNeutrinoSyncWithHeadersImport|TestNeutrinoSyncWithoutHeadersImport|TestWorkManagerProgressTimeoutFailuresDontReset'
 cp $SRC/demo_test.go $WT/$PKG/zz_seeded_demo_test.go
 ( cd $MODDIR && timeout 600 go1.26.8 test $RACE -vet=off -count=1 -run "$RX" $TESTPKG ) > /tmp/sv-$ID.clean.log 2>&1; CLEAN=$?
-git -C $WT apply $SRC/patch.diff || { echo "SEED $ID: patch does not apply"; exit 3; }
+git -C $WT apply $SRC/patch.diff 2>/dev/null || git -C $WT apply --3way $SRC/patch.diff || { echo "SEED $ID: patch does not apply"; exit 3; }
 ( cd $WT && go1.26.8 build ./... && cd cache && go1.26.8 build ./... ) > /tmp/sv-$ID.build.log 2>&1 || { echo "SEED $ID: mutant does not build"; tail -3 /tmp/sv-$ID.build.log; exit 3; }
 ( cd $MODDIR && timeout 600 go1.26.8 test $RACE -vet=off -count=1 -run "$RX" $TESTPKG ) > /tmp/sv-$ID.mut.log 2>&1; MUT=$?
 rm $WT/$PKG/zz_seeded_demo_test.go
